@@ -5,7 +5,8 @@ S = '@^(Batch::(put|put_kv|delete|commit)|<DB as (Put|Delete)>::(put|delete))$'
 # interior-mutability containers of Peers: their mutating calls are effects
 D = '@^(DashMap|Entry|OccupiedEntry|VacantEntry)::(insert|remove|entry|alter|clear|retain|and_modify|or_insert_with|or_insert|or_default)$'
 CENSUS = {
-    'C03': ['Storage::filter_block' + S, 'Storage::update_block_number' + S],
+    'C03': ['Storage::filter_block' + S, 'Storage::update_block_number' + S,
+            'Storage::update_filter_scripts' + S[:-2] + '|Storage::clear_matched_blocks|Storage::filter_block)$'],
     'C04': ['Storage::rollback_to_block' + S],
     'C08': ['Storage::add_matched_blocks' + S, 'Storage::remove_matched_blocks' + S, 'Storage::update_min_filtered_block_number' + S],
     'C09': ['Storage::update_filter_scripts' + S[:-2] + '|Storage::clear_matched_blocks|Storage::filter_block)$', 'Storage::clear_matched_blocks' + S],
@@ -26,9 +27,9 @@ CENSUS = {
             '<VerifiableHeader as VerifiableHeaderPatch>::checked_total_difficulty',
             'LightClientProtocol::check_pow_for_headers', 'LightClientProtocol::check_chain_root_for_headers',
             'LightClientProtocol::check_verifiable_header', 'ProveRequest::is_same_as', 'LastState::is_same_as'],
-    'C02': ['check_block_body', 'verify_extra_hash', '~+Peers::add_block'],
+    'C02': ['check_block_body', 'verify_extra_hash', '~+Peers::add_block', '~TransactionsProofRequest::check_tx_hashes', '~BlocksProofRequest::check_block_hashes'],
     'C06': ['Peers::calc_check_point_number', 'Peers::calc_cached_check_point_index_when_sync_at',
-            '+LatestBlockFilterHashes::update_latest_block_filter_hashes', 'Peers::get_latest_block_filter_hashes',
+            '+LatestBlockFilterHashes::update_latest_block_filter_hashes', '~+Peers::get_latest_block_filter_hashes',
             'LatestBlockFilterHashes::get_last_number'],
     'C07': ['+CheckPoints::add_check_points', '+CheckPoints::remove_first_n_check_points', 'CheckPoints::number_of_first_check_point',
             'CheckPoints::number_of_last_check_point', 'CheckPoints::number_of_next_check_point', 'CheckPoints::if_require_next_check_point',
@@ -65,8 +66,9 @@ HANDLERS['C06'] = HANDLERS['C06'] + [HANDLERS['C02'][2]]
 CENSUS.setdefault('C06', []).append('~+Peers::add_block')
 HANDLERS['C12'] = HANDLERS['C12'] + [HANDLERS['C01'][0]]
 CENSUS['C12'].append(HANDLERS['C01'][0])
-HANDLERS['C16'] = ['!LightClientProtocol::fetch_headers_txs@^Peers::(fetching_idle_txs|fetching_idle_headers|update_blocks_proof_request|update_txs_proof_request)$']
+HANDLERS['C16'] = [HANDLERS['C02'][0], HANDLERS['C02'][1], '!LightClientProtocol::fetch_headers_txs@^Peers::(fetching_idle_txs|fetching_idle_headers|update_blocks_proof_request|update_txs_proof_request)$']
 CENSUS['C16'].extend(HANDLERS['C16'])
+CENSUS['C16'].extend(['~TransactionsProofRequest::check_tx_hashes', '~BlocksProofRequest::check_block_hashes'])
 HANDLERS['C09'] = [HANDLERS['C02'][2], HANDLERS['C06'][0]]
 HANDLERS['C08'] = [HANDLERS['C12'][1], HANDLERS['C02'][2], HANDLERS['C06'][0]]
 for _k in ('C08', 'C09'):
